@@ -21,6 +21,54 @@ def sh(cmd, cwd=None, env=None, timeout=3600):
     return p.returncode, "\n".join(l for l in p.stdout.splitlines() if "auto_activate_base" not in l)
 
 
+def check_with_patch(patch, prop, extra=""):
+    """Run the quick check of ``prop`` against a private scratch copy of /repo/src with ``patch`` applied
+    (VERIF_REPO_SRC), never touching /repo.  Returns (exit code, output)."""
+    import tempfile, shutil
+    base = "/dev/shm" if os.path.isdir("/dev/shm") else "/tmp"
+    d = tempfile.mkdtemp(prefix="verif-scratch-", dir=base)
+    try:
+        rc, out = sh(f"mkdir -p {d}/src && cp -r /repo/src/twisted {d}/src/twisted && cd {d} && patch -p1 -s < {patch}")
+        if rc != 0:
+            return 99, "patch does not apply: " + out
+        return sh(f"{PY} sa/check.py --property {prop} --tier quick --no-evidence {extra}", cwd=VERIF,
+                  env={"VERIF_REPO_SRC": f"{d}/src/twisted"})
+    finally:
+        shutil.rmtree(d, ignore_errors=True)
+
+
+def sweep(kind, ids, jobs=8):
+    """kind = 'seeded' (expect exit 1) or 'refactors' (expect exit 0); runs in parallel on scratch copies."""
+    from concurrent.futures import ThreadPoolExecutor
+    items = []
+    for i in ids:
+        d = os.path.join(VERIF, kind, i)
+        mp = os.path.join(d, "meta.json")
+        if os.path.isfile(mp) and os.path.isfile(os.path.join(d, "patch.diff")):
+            items.append((i, d, json.load(open(mp))["property"]))
+    def one(it):
+        i, d, prop = it
+        rc, out = check_with_patch(os.path.join(d, "patch.diff"), prop)
+        ls = [l.strip() for l in out.splitlines()]
+        pairs = [ls[k][5:] + " | " + ls[k + 1][10:] for k in range(len(ls) - 1) if ls[k].startswith("rule=") and ls[k + 1].startswith("construct=")]
+        errs = [l for l in ls if l.startswith("ANALYSIS-ERROR")]
+        return i, prop, rc, pairs, errs
+    good = bad = 0
+    with ThreadPoolExecutor(jobs) as ex:
+        for i, prop, rc, pairs, errs in ex.map(one, items):
+            if kind == "seeded":
+                v = {1: "DETECTED", 0: "missed", 2: "analysis-error"}.get(rc, f"exit {rc}")
+                ok = rc == 1
+            else:
+                v = {0: "silent", 1: "FALSE-ALARM", 2: "analysis-error"}.get(rc, f"exit {rc}")
+                ok = rc == 0
+            good += ok; bad += (not ok)
+            if not ok or "-v" in sys.argv:
+                print(f"{i}: {prop}:{v} " + " ;; ".join(pairs[:2])[:300] + (" " + errs[0][:200] if errs else ""))
+    print(f"{kind}: {good} as expected, {bad} not")
+    return 0
+
+
 def detect(ids, all_checks=False, record=False):
     rc, out = sh("git -C /repo status --porcelain --untracked-files=no")
     if out.strip():
@@ -188,6 +236,12 @@ def refactors(pids):
 
 if __name__ == "__main__":
     a = sys.argv[1:]
+    if a and a[0] == "sweep":
+        kind = a[1]
+        sel = [x for x in a[2:] if not x.startswith("-")]
+        allids = sorted(os.path.basename(p) for p in glob.glob(os.path.join(VERIF, kind, "*")) if os.path.isdir(p))
+        ids = [i for i in allids if not sel or any(i.startswith(x) for x in sel)]
+        sys.exit(sweep(kind, ids))
     if a and a[0] == "refactors":
         sys.exit(refactors([x for x in a[1:] if x.startswith("C")]))
     if a and a[0] == "import":
